@@ -23,6 +23,7 @@
 #include <bxdecay0/mdl_event_op.h>
 #include <bxdecay0/std_random.h>
 #include <random>
+#include <csignal>
 
 int bxdecay0_run_main(int argc_, char ** argv_); // programs/bxdecay0-run.cxx compiled with -Dmain=bxdecay0_run_main
 
@@ -184,6 +185,10 @@ std::map<std::string, std::string> parse_kv(const std::string & d0c)
   return m;
 }
 
+/// a catchable termination signal (SIGTERM / SIGINT) sent to the program at its k-th write: 0 = none
+struct SignalFault { i64 at_point = 0; int signo = 0; i64 delivered = 0, default_disposition = 0; };
+SignalFault g_sigfault;
+
 struct RunResult { int rc = -99; std::string diag; std::string d0t, d0c; bool d0t_exists = false, d0c_exists = false; i64 crash_points = 0; std::string kill_violation; };
 
 /// files left behind on the same basename by an earlier, complete run (empty strings: none)
@@ -200,7 +205,18 @@ RunResult run_program(const std::vector<std::string> & tokens, const std::string
   std::string t_path = base + ".d0t", c_path = base + ".d0c";
   if (!stale || !stale->any()) { fs::remove(t_path); fs::remove(c_path); }
   i64 cp0 = fs::stats().crash_points;
+  struct sigaction old_term, old_int;
+  sigaction(SIGTERM, nullptr, &old_term); sigaction(SIGINT, nullptr, &old_int);
   fs::set_crash_observer([&]() {
+    // an operator's kill / Ctrl-C at this instant. With the default disposition the process dies here, which is the
+    // kill point evaluated below; if the program has installed a handler of its own, the signal is really delivered
+    // and whatever the program then does is held to the same invariants (marker only if complete)
+    if (g_sigfault.signo && fs::stats().crash_points - cp0 == g_sigfault.at_point) {
+      struct sigaction cur; sigaction(g_sigfault.signo, nullptr, &cur);
+      bool dfl = !(cur.sa_flags & SA_SIGINFO) && (cur.sa_handler == SIG_DFL || cur.sa_handler == SIG_IGN);
+      if (dfl) g_sigfault.default_disposition++;
+      else { g_sigfault.delivered++; raise(g_sigfault.signo); }
+    }
     // a process kill at this instant leaves exactly these bytes behind
     if (!rr.kill_violation.empty()) return;
     // the untouched pair of an earlier complete run on the same basename is consistent by itself
@@ -226,6 +242,7 @@ RunResult run_program(const std::vector<std::string> & tokens, const std::string
     rr.diag = cap.str();
   }
   fs::set_crash_observer(nullptr);
+  sigaction(SIGTERM, &old_term, nullptr); sigaction(SIGINT, &old_int, nullptr); // whatever the program's main() installed
   rr.crash_points = fs::stats().crash_points - cp0;
   rr.d0t_exists = fs::exists(t_path); rr.d0c_exists = fs::exists(c_path);
   rr.d0t = fs::get(t_path); rr.d0c = fs::get(c_path);
@@ -247,6 +264,7 @@ Outcome run_run(const Plan & plan, const RunCtx & ctx)
     else if (op.k == "junk") junk.push_back(&op);
     else if (op.k == "wfault") { wkind = op.arg(0); warg = op.arg(1); }
     else if (op.k == "cuts") cuts = op.arg(0);
+    else if (op.k == "sig") { g_sigfault.at_point = op.arg(0); g_sigfault.signo = op.arg(1) == 2 ? SIGINT : SIGTERM; }
     else if (op.k == "epoch") epoch = op.arg(0);
     else if (op.k == "rerun") rerun = &op;
     else if (op.k == "prior") prior = &op;
@@ -303,6 +321,10 @@ Outcome run_run(const Plan & plan, const RunCtx & ctx)
   fs::set_time(epoch);
   i64 w_err0 = fs::stats().write_errors + fs::stats().enospc + fs::stats().open_failed;
   RunResult rr = run_program(tokens, base, ref.refused ? nullptr : &ref.d0t, &stale);
+  out.ctr["fault_signal_delivered_to_program_handler"] += g_sigfault.delivered;
+  out.ctr["fault_signal_at_default_disposition_equals_kill_point"] += g_sigfault.default_disposition;
+  const bool signalled = g_sigfault.delivered > 0;
+  g_sigfault = SignalFault();
   bool write_fault_fired = (fs::stats().write_errors + fs::stats().enospc + fs::stats().open_failed) > w_err0;
   out.ctr["fault_open_failed_fired"] += fs::stats().open_failed;
   fs::faults() = fs::Faults();
@@ -329,6 +351,14 @@ Outcome run_run(const Plan & plan, const RunCtx & ctx)
       violation("events-written-for-refused-line", "events-written-for-refused-line " + clclass,
                 "the reference refuses this command line (" + ref.why + ") but the program wrote " + std::to_string(nrec) + " event record(s)");
     if (has_marker(rr.d0c) && !untouched) violation("marker-for-refused-line", "marker-for-refused-line " + clclass, "'@status=0' written although the command line is refused (" + ref.why + ")");
+  } else if (signalled) {
+    // the program caught the signal and decided what to do: it may stop early or finish, but a marker still means complete
+    outcome = "signalled";
+    if (!rr.kill_violation.empty()) violation("marker-before-complete-at-kill-point", "marker-before-complete-at-kill-point signalled", rr.kill_violation);
+    if (has_marker(rr.d0c) && rr.d0t != ref.d0t)
+      violation("marker-after-interrupted-run", "marker-after-interrupted-run",
+                "the program handled a termination signal during the run and published '@status=0' over an event file of " + std::to_string(nrec) + " record(s) ("
+                    + std::to_string(rr.d0t.size()) + " bytes) where the complete file has " + std::to_string(count_records(ref.d0t)) + " (" + std::to_string(ref.d0t.size()) + " bytes)");
   } else if (!write_fault_fired) {
     outcome = "complete";
     out.ctr["command_lines_accepted"]++;
@@ -435,9 +465,10 @@ Plan gen_run(u64 seed, u64 idx, const RunCtx & ctx)
   const auto & cheap = dbd_cheap();
   if (d < 40) { cat = 2; nuc = r.pick(bkg_names()); }
   else if (d < 75 && !cheap.empty()) {
-    const DbdEntry & e = r.pick(cheap);
+    // one in seven of these is a quadrature-based mode (milliseconds per initialise): the modes an energy window applies to
+    const DbdEntry & e = (d >= 70 && !dbd_quad().empty()) ? r.pick(dbd_quad()) : r.pick(cheap);
     cat = 1; nuc = e.nuc; level = r.chance(0.2) && e.level == 0 ? -1 : e.level; mode = e.mode;
-    if (mode_supports_window(e.mode) && e.e0_keV > 300 && r.chance(0.35)) {
+    if (mode_supports_window(e.mode) && e.e0_keV > 300 && r.chance(e.qng_calls > 0 ? 0.7 : 0.35)) {
       i64 lo = r.range(0, (i64)e.e0_keV / 2), hi = lo + (i64)e.e0_keV / 2;
       u64 k = r.below(4);
       if (k == 0) { emin = lo; emax = hi; } else if (k == 1) emin = lo; else if (k == 2) emax = hi; else { emin = hi; emax = lo; } // last: inverted
@@ -474,6 +505,7 @@ Plan gen_run(u64 seed, u64 idx, const RunCtx & ctx)
   if (f == 1) { Op w; w.k = "wfault"; w.a = {1, r.range(1, 64)}; p.ops.push_back(w); }                      // short writes only: must be invisible
   else if (f == 2) { Op w; w.k = "wfault"; u64 k = r.below(5); w.a = {(i64)(2 + k), k == 0 ? r.range(0, 6000) : r.range(0, 60)}; p.ops.push_back(w); }
   if (r.chance(0.5)) { Op o; o.k = "cuts"; o.a = {r.range(1, 3)}; p.ops.push_back(o); }
+  if (f == 0 && r.chance(0.3)) { Op o; o.k = "sig"; o.a = {r.range(1, 40), (i64)r.range(1, 2)}; p.ops.push_back(o); } // SIGTERM / SIGINT at the k-th write
   if (r.chance(0.5)) { Op o; o.k = "epoch"; o.a = {(i64)r.below(4000000000ULL)}; p.ops.push_back(o); }
   if (r.chance(0.3)) { Op o; o.k = "prior"; o.a = {(i64)r.below(1000), r.chance(0.3) ? r.range(20, 90) : r.range(1, 6)}; /* often longer than the run that follows */ o.s = {r.pick(std::vector<std::string>{"Co60", "K40", "Cs137+Ba137m", "Tl208"})}; p.ops.push_back(o); }
   if (r.chance(0.4)) { Op o; o.k = "rerun"; o.a = {(i64)r.below(4000000000ULL), r.chance(0.5) ? r.range(1, 50) : 0}; p.ops.push_back(o); }
